@@ -14,13 +14,13 @@ cp tests/seed_demo.rs $OUT/seed_demo.rs 2>/dev/null || cp seed_demo.rs $OUT/seed
 cp seed_meta.txt $OUT/seed_meta.txt 2>/dev/null
 # 1. suite with the change (demo moved aside)
 mv tests/seed_demo.rs /tmp/seed_demo_$ID.rs 2>/dev/null
-S=$(cargo test --offline --no-fail-fast 2>&1 | grep -E "^test result" | awk '{p+=$4; f+=$6} END {print p" passed "f" failed"}')
+S=$(cargo test --offline ${FEAT:-} --no-fail-fast 2>&1 | grep -E "^test result" | awk '{p+=$4; f+=$6} END {print p" passed "f" failed"}')
 cp /tmp/seed_demo_$ID.rs tests/seed_demo.rs
 # 2. demo with the change
-D1=$(cargo test --offline --test seed_demo 2>&1 | grep -E "^test result" | head -1)
+D1=$(cargo test --offline ${FEAT:-} --test seed_demo 2>&1 | grep -E "^test result" | head -1)
 # 3. demo without
 git stash -q -- src
-D0=$(cargo test --offline --test seed_demo 2>&1 | grep -E "^test result" | head -1)
+D0=$(cargo test --offline ${FEAT:-} --test seed_demo 2>&1 | grep -E "^test result" | head -1)
 git stash pop -q
 python3 - "$OUT" "$ID" "$PROP" "$S" "$D1" "$D0" <<'PY'
 import json,sys,os
